@@ -62,6 +62,7 @@ Fresh == [
   dead   |-> FALSE,    \* collection dropped
   refused|-> FALSE,    \* a push was refused (or panicked) earlier in this run: it must not have disturbed anything (C15)
   poison |-> FALSE,    \* a child's destructor panicked: the properties do not speak about what follows, except exactly-once dropping
+  budgeted |-> FALSE,  \* the per-poll budget ran out during the latest poll (hook event)
   unw    |-> FALSE,    \* a panic raised by a child's destructor is unwinding through the crate
   qn     |-> 0,        \* C14: consecutive noisy Pending polls in a quiet phase
   act    |-> FALSE,    \* C14: a child waker was invoked / a child finished / upstream moved during this poll
@@ -165,15 +166,22 @@ StepObs(s, e) ==
 
 \* --------------------------------------------------------------- poll frame
 StepPoll(s, e) ==
-  [s EXCEPT !.inpoll = TRUE, !.pw = e.w, !.woken = FALSE, !.work = 0, !.upPend = FALSE, !.act = FALSE,
+  [s EXCEPT !.inpoll = TRUE, !.pw = e.w, !.woken = FALSE, !.work = 0, !.upPend = FALSE, !.act = FALSE, !.budgeted = FALSE,
             !.ch = [c \in DOMAIN @ |-> IF @[c].st = "held" /\ @[c].np = 0
                                        THEN [@[c] EXCEPT !.ob = TRUE] ELSE @[c]]]
 
 \* NoLostWakeup (C01): at a quiescent point after a poll that answered Pending
 LostWake(s) == \E c \in Held(s) : s.ch[c].ob
+\* The same fault is also: a merge that answers Pending although a notified source has not been asked (C11: "Pending only
+\* while some source is pending"), and a poll that stopped at its budget without waking its task (C13: "when it stops
+\* early it has woken its task so the rest is not forgotten").
 CheckLost(s) ==
   IF ~s.inpoll /\ s.inwake = 0 /\ s.lastret = "pending" /\ ~s.dead /\ ~s.woken /\ LostWake(s)
-  THEN V(s, "C01", "Pending/asleep with an un-polled woken or new child and the task waker of the latest poll not invoked")
+  THEN LET s1 == V(s, "C01", "Pending/asleep with an un-polled woken or new child and the task waker of the latest poll not invoked")
+           s2 == IF s.kind \in MergeKinds
+                 THEN V(s1, "C11", "Pending although a source that was notified has not been polled, and the task was not woken")
+                 ELSE s1
+       IN IF s.budgeted THEN V(s2, "C13", "the poll stopped early at its budget without waking its task: the rest is forgotten") ELSE s2
   ELSE s
 
 StepCin(s, e) ==
@@ -370,6 +378,7 @@ Step(s, e) ==
     [] e.e = "cin"    -> StepCin(s, e)
     [] e.e = "cout"   -> StepCout(s, e)
     [] e.e = "cdrop"  -> StepCdrop(s, e)
+    [] e.e = "budget" -> [s EXCEPT !.budgeted = TRUE]
     [] e.e = "dpanic" -> [s EXCEPT !.unw = TRUE, !.poison = TRUE]
     [] e.e = "odrop"  -> StepOdrop(s, e)
     [] e.e = "wake_b" -> StepWakeB(s, e)
